@@ -21,6 +21,7 @@
 package main
 
 import (
+	"bytes"
 	"context"
 	"encoding/json"
 	"fmt"
@@ -345,6 +346,13 @@ func replSync(c *drv.Ctx, o *drv.Op) drv.Obs {
 		src = sender.refs
 	}
 	tgs := append([][]byte{}, src[sent:]...)
+	// groups whose bytes are no longer what was handed over (the master kept writing into the buffer it gave away)
+	mutated := []int{}
+	for i := sent; i < len(sender.tgs); i++ {
+		if !bytes.Equal(sender.tgs[i], sender.refs[i]) {
+			mutated = append(mutated, i)
+		}
+	}
 	sent = len(sender.tgs)
 	sender.mu.Unlock()
 	shapes := []interface{}{}
@@ -365,7 +373,7 @@ func replSync(c *drv.Ctx, o *drv.Op) drv.Obs {
 		shapes = append(shapes, sh)
 		errs = append(errs, replayOne(tg))
 	}
-	return drv.Obs{"err": nil, "tgs": shapes, "replay": errs}
+	return drv.Obs{"err": nil, "tgs": shapes, "replay": errs, "mutated_after_handover": mutated}
 }
 
 type replCmpArgs struct {
